@@ -73,6 +73,8 @@ type interpreter struct {
 	depth         int
 	ex            *Explorer
 	hashInputs    []hashRec
+	seals         []sealRec
+	kdfs          []kdfRec
 	scopes        []int
 	scopePC       [][]*Term
 	pcSet         map[*Term]bool
@@ -424,7 +426,7 @@ func visitInstr(fr *frame, instr ssa.Instruction) continuation {
 		i.spawn(fn, args, instr.Pos())
 
 	case *ssa.MakeChan:
-		fr.set(instr, i.makeChan(int(i.concInt(fr.get(instr.Size), "chan-size"))))
+		fr.set(instr, i.makeChanAt(int(i.concInt(fr.get(instr.Size), "chan-size")), instr.Pos()))
 
 	case *ssa.Alloc:
 		var addr *value
